@@ -85,10 +85,10 @@ theorem RawInv.step {E : Env σ} (hE : ∀ i, (E.codec i).Sound) {e : Enc σ} {t
         rw [RawEnc.code_sync E (E.codec 0) r hok.lzma2 hok.pre data a]
         simp only [List.take_length]
         have hC := hE 0
-        -- what `code_spec` says for an arbitrary decoder state is needed for every tail
+        -- what `l2_code_spec` says for an arbitrary decoder state is needed for every tail
         have hret : (r.l2.code (E.codec 0) data a).2.2 = .ok ∨ (r.l2.code (E.codec 0) data a).2.2 = .streamEnd := by
           obtain ⟨d, hd, ha, hh⟩ := hok.running hfin' []
-          obtain ⟨_, _, c3, c4, _, _⟩ := code_spec hC r.l2 d ha data a []
+          obtain ⟨_, _, c3, c4, _, _⟩ := l2_code_spec hC r.l2 d ha data a []
           by_cases har : a = .run
           · left; exact c3 har
           · right; exact (c4 har).1
@@ -103,11 +103,11 @@ theorem RawInv.step {E : Env σ} (hE : ∀ i, (E.codec i).Sound) {e : Enc σ} {t
           have hanf : a ≠ .finish := by
             intro haf; subst haf
             obtain ⟨d, hd, ha, hh⟩ := hok.running hfin' []
-            obtain ⟨_, _, _, c4, _, _⟩ := code_spec hC r.l2 d ha data .finish []
+            obtain ⟨_, _, _, c4, _, _⟩ := l2_code_spec hC r.l2 d ha data .finish []
             simp [(c4 (by decide)).1] at hnf
           simp only [bodies_append, bodies_body, List.append_assoc]
           obtain ⟨d, hd, ha, hh⟩ := hok.running hfin' ((r.l2.code (E.codec 0) data a).2.1 ++ tail)
-          obtain ⟨c1, _, _, _, c5, _⟩ := code_spec hC r.l2 d ha data a tail
+          obtain ⟨c1, _, _, _, c5, _⟩ := l2_code_spec hC r.l2 d ha data a tail
           obtain ⟨d', hd', ha'⟩ := c5 hanf
           exact ⟨d', hd.trans hd', ha', by rw [c1, hh]⟩
         · intro hf tail
@@ -116,7 +116,7 @@ theorem RawInv.step {E : Env σ} (hE : ∀ i, (E.codec i).Sound) {e : Enc σ} {t
           subst haf
           simp only [bodies_append, bodies_body, List.append_assoc]
           obtain ⟨d, hd, ha, hh⟩ := hok.running hfin' ((r.l2.code (E.codec 0) data .finish).2.1 ++ tail)
-          obtain ⟨c1, _, _, c4, _, c6⟩ := code_spec hC r.l2 d ha data .finish tail
+          obtain ⟨c1, _, _, c4, _, c6⟩ := l2_code_spec hC r.l2 d ha data .finish tail
           obtain ⟨d', hd', he', ho'⟩ := c6 rfl
           refine ⟨d', hd.trans hd', he', ?_⟩
           have hu := (c4 (by decide)).2
@@ -168,7 +168,7 @@ theorem RawInv.flush {E : Env σ} (hE : ∀ i, (E.codec i).Sound) {e : Enc σ} {
   simp only [Enc.exec, Enc.step, Enc.codeOp, halive, Bool.false_eq_true, if_false, Op.data, hs, Bool.not_true, hnf, hcore]
   rw [RawEnc.code_sync E (E.codec 0) r hok.lzma2 hok.pre data .syncFlush]
   obtain ⟨d, hd, ha, hh⟩ := hok.running hnf []
-  obtain ⟨_, _, _, c4, _, _⟩ := code_spec (hE 0) r.l2 d ha data .syncFlush []
+  obtain ⟨_, _, _, c4, _, _⟩ := l2_code_spec (hE 0) r.l2 d ha data .syncFlush []
   obtain ⟨hret, hun⟩ := c4 (by decide)
   simp [hret, hun]
 
@@ -184,7 +184,7 @@ theorem RawInv.finish {E : Env σ} (hE : ∀ i, (E.codec i).Sound) {e : Enc σ} 
   simp only [Enc.exec, Enc.step, Enc.codeOp, halive, Bool.false_eq_true, if_false, Op.data, hs, Bool.not_true, hnf, hcore]
   rw [RawEnc.code_sync E (E.codec 0) r hok.lzma2 hok.pre data .finish]
   obtain ⟨d, hd, ha, hh⟩ := hok.running hnf []
-  obtain ⟨_, _, _, c4, _, _⟩ := code_spec (hE 0) r.l2 d ha data .finish []
+  obtain ⟨_, _, _, c4, _, _⟩ := l2_code_spec (hE 0) r.l2 d ha data .finish []
   obtain ⟨hret, hun⟩ := c4 (by decide)
   simp [hret]
 
